@@ -272,6 +272,11 @@ func (runInfo *runInfoStruct) invokeDerefExpr(expr *ast.DerefExpr) {
 		runInfo.rv = nilValue
 		return
 	}
+	if runInfo.rv.IsNil() {
+		runInfo.err = newStringError(expr.Expr, "cannot deference nil pointer")
+		runInfo.rv = nilValue
+		return
+	}
 	runInfo.rv = runInfo.rv.Elem()
 }
 
